@@ -84,6 +84,10 @@ CHECKS = {
          "Schedule exploration with the deterministic scheduler: 2-3 programs that own distinct regions (append small / exactly to the reserve / one byte over it / several doublings, positional write, truncate, truncate_write, rename, create, remove, Region::flush, Database::flush, compact) with holes and a nearly full file in the prologue. After every own operation a program compares all of its regions with a private byte model (isolation); Readers (also on other programs' regions) are held across up to 5 operations of the other programs and every byte below the snapshot length must occur at that offset in a version the region had since the Reader's creation; at the quiescent end the C02 extent invariants hold and every region equals its owner's final model.",
          "Interleavings at lock-request/yield-point granularity under sequential consistency. Known findings excluded by construction and counted: KF-C10-1 (a Reader whose region was relocated while it was held: byte clause skipped for exactly those Readers) and KF-C12-1 (compact() overlapping a write that extends a region beyond its last valid page: that region is no longer content-checked).",
          "property-based schedule exploration with per-program reference models and a version-history oracle for held Readers (proptest + deterministic scheduler)", "DESIGN.md §4 C10, §3 E6"),
+ "C06": ("E4-compute", "exploration",
+         "Differential property test over a table of 52 exact EagerVec methods: a generated history (initial fill; steps of redundant call / every source grows / every source is truncated at a generated index and regrown with different data; starting index drawn at and below the first changed source index; write-batch limit forced to 1, 3, 17 elements or default through hook H6; windows 0, 1, 2, 5, len-1, len, len+5, usize::MAX; optional flush + re-import) is applied to stored sources of the raw and the Pco family, and after EVERY call the result must equal, bit for bit, the same method evaluated in one call with the default batch limit on a fresh EagerVec, have the length of the shortest governing source, and (22 methods) equal a closed formula over the model sources.",
+         "The float methods with lossy resumable state (sma, ema, rma, rolling_average, rolling_sd, expanding_sd, rolling_ema/rma, rolling_ratio) are outside 'exact arithmetic' and are not checked. A call that errs or panics is only a violation when the from-scratch evaluation of the same inputs succeeds. Known findings excluded by construction and counted: KF-C06-1 (all_time_low with exclude_default: method not run), KF-C06-2 (first_per_index across a batch boundary: default batch limit only), KF-C06-3 (first_per_index after truncation + regrowth: its mapping only grows).",
+         "differential + metamorphic property testing (incremental history vs from-scratch single call, batch-size variation) with closed-formula references (proptest)", "DESIGN.md §4 C06, §3 E4"),
 }
 WIP = "not claimed: the generated-input check designed in DESIGN.md §4 was not built within the time available (the technique applies; nothing is asserted about this property)"
 
@@ -114,6 +118,7 @@ ENGINES = [
  {"name": "E2-crash", "path": "harness/src/crash", "serves_properties": ["C05", "C12"], "kind_free_text": "storage-event recorder (hook H1) + page-versioned durable-image simulator + crash-image enumeration and recovery oracle on top of E1"},
  {"name": "E5-lazy", "path": "harness/src/props/c15.rs", "serves_properties": ["C15"], "kind_free_text": "lazy vector constructors over stored sources, closed-formula oracles, generic read-path matrix"},
  {"name": "E6-sched", "path": "harness/src/sched", "serves_properties": ["C09", "C10", "C11", "C12"], "kind_free_text": "deterministic scheduler: real threads, one running at a time, scheduling points at instrumented lock requests (H3) and yield points (H4), writer-preferring FIFO lock model, deadlock = no enabled program"},
+ {"name": "E4-compute", "path": "harness/src/compute", "serves_properties": ["C06", "C19"], "kind_free_text": "EagerVec method table over a generated world of stored sources, source histories (grow / truncate+regrow), from-scratch differential and closed-formula references, batch-limit override (H6)"},
  {"name": "E1-rawmodel", "path": "harness/src/rawmodel", "serves_properties": ["C01", "C02", "C13", "C05", "C12", "C10"], "kind_free_text": "rawdb op language + byte-vector reference model + extent invariants, driven by proptest"},
 ]
 manifest = {
